@@ -337,8 +337,10 @@ func c17EncodeUTF8(c *work.Ctx) {
 
 // ---- decode ---------------------------------------------------------------------
 
-var c17Atoms = []string{"a", "\u00e9", "\U0001F600", `\"`, `\\`, `\/`, `\b`, `\f`, `\n`, `\r`, `\t`, `\u0041`, `\u0000`, `\u00e9`, `\u00E9`, `\uD83D`, `\uDE00`, `\uFFFF`}
-var c17AtomNames = []string{"a", "é", "😀", `\"`, `\\`, `\/`, `\b`, `\f`, `\n`, `\r`, `\t`, "uASCII", "uNUL", "ulower", "uUPPER", "uHI", "uLO", "uFFFF"}
+var c17Atoms = []string{"a", "\u00e9", "\U0001F600", `\"`, `\\`, `\/`, `\b`, `\f`, `\n`, `\r`, `\t`, `\u0041`, `\u0000`, `\u00e9`, `\u00E9`, `\uD83D`, `\uDE00`, `\uFFFF`,
+	// code points above U+00FF whose LOW byte is the letter a field name has (a = 0x61)
+	`\u0161`, `\ud800\udc61`}
+var c17AtomNames = []string{"a", "é", "😀", `\"`, `\\`, `\/`, `\b`, `\f`, `\n`, `\r`, `\t`, "uASCII", "uNUL", "ulower", "uUPPER", "uHI", "uLO", "uFFFF", "u0161", "pair10061"}
 
 type c17TU struct{ S string }
 
@@ -444,6 +446,26 @@ var c17DecPositions = []c17DecPos{
 		}
 		err := c17Dec(std, stream, []byte(`{`+lit+`:5}`), &v)
 		return fmt.Sprintf("%d%d%d%d", v.A, v.AA, v.E, v.Q), err
+	}},
+	{"struct key match, 9..16 names", func(lit string, stream, std bool) (string, error) {
+		var v struct {
+			A                              int `json:"a"`
+			AA                             int `json:"aa"`
+			Q                              int `json:"A"`
+			P1, P2, P3, P4, P5, P6, P7, P8 int
+		}
+		err := c17Dec(std, stream, []byte(`{`+lit+`:5}`), &v)
+		return fmt.Sprintf("%d%d%d", v.A, v.AA, v.Q), err
+	}},
+	{"struct key match, more than 16 names", func(lit string, stream, std bool) (string, error) {
+		var v struct {
+			A                                                                int `json:"a"`
+			AA                                                               int `json:"aa"`
+			Q                                                                int `json:"A"`
+			P1, P2, P3, P4, P5, P6, P7, P8, P9, P10, P11, P12, P13, P14, P15 int
+		}
+		err := c17Dec(std, stream, []byte(`{`+lit+`:5}`), &v)
+		return fmt.Sprintf("%d%d%d", v.A, v.AA, v.Q), err
 	}},
 }
 
